@@ -442,13 +442,23 @@ struct VChild {
 
 // Starts a puppet with `opt` (hooks stand back during start), waits for its
 // hello and registers it with the world. Returns "" on success.
-inline std::string start_puppet(World &w, const std::string &dir, reproc_options opt, VChild &c)
+// `fail_first`: if not NULL, a start of a missing program with these options is
+// made on the same handle first (it must fail and leave nothing behind).
+inline std::string start_puppet(World &w, const std::string &dir, reproc_options opt, VChild &c, const reproc_options *fail_first = nullptr)
 {
   c.pup.reset(new hz::Puppet(dir));
   if (!c.pup->error().empty()) return "puppet: " + c.pup->error();
   const char *argv[] = { c.pup->exe().c_str(), "v", nullptr };
   c.fds_before = hz::snapshot_self_fds();
   c.p = reproc_new();
+  if (fail_first) {
+    std::string missing = dir + "/no-such-program";
+    const char *bad[] = { missing.c_str(), nullptr };
+    w.in_start = true;
+    int fr = reproc_start(c.p, bad, *fail_first);
+    w.in_start = false;
+    if (fr >= 0) return "the start of a missing program returned " + std::to_string(fr);
+  }
   c.t_start = w.now;
   w.in_start = true;
   c.start_result = reproc_start(c.p, argv, opt);
